@@ -441,6 +441,9 @@ func (pso *PubSubOwner) UnmarshalXML(d *xml.Decoder, start xml.StartElement) err
 				if err != nil {
 					return err
 				}
+			default:
+				// Unknown child: skipped entirely, so that none of its descendants is taken for our end tag.
+				err = d.Skip()
 			}
 			if err != nil {
 				return err
